@@ -747,3 +747,22 @@ func TestVF_C18_Concurrent(t *testing.T) {
 	}
 	_ = filepath.Join
 }
+
+// c18OpenNoT opens a back-end without a testing.T (nil on error).
+func c18OpenNoT(b c18Backend, dir string) chain.Store {
+	ctx := context.Background()
+	if b.Chained {
+		ctx = chain.SetPreviousRequiredOnContext(ctx)
+	}
+	switch b.Kind {
+	case "memdb":
+		return memdb.NewStore(b.Cap)
+	case "bolt-untrimmed":
+		ctx = boltdb.IsATest(ctx)
+	}
+	s, err := boltdb.NewBoltStore(ctx, vfQuietLogger(), dir)
+	if err != nil {
+		return nil
+	}
+	return s
+}
